@@ -553,6 +553,154 @@ def enc_list(ss):
     return "[" + "; ".join(enc_str(s) for s in ss) + "]"
 
 
+# ---------------------------------------------------------------------------
+# pipeline level: the transformed columns must reach the ranking
+
+PIPE_FAM = "pipeline: transformed columns reach the ranking (compute_batch_ranking / ranking task)"
+PIPE_PRESETS = ["minimal", "default", "minimal,default", "default,minimal", "minimal,minimal", "fw-transformers,minimal"]
+
+
+def gen_pipe_case(rng):
+    level = "batch" if rng.random() < 0.62 else "task"
+    n = rng.randint(12, 48)
+    numeric = rng.sample(["x", "price", "ctr"], rng.choice([1, 1, 2]))
+    cats = rng.sample(["cat", "site", "geo"], rng.choice([1, 2]))
+    cols = ["label"] + numeric + cats
+    rng.shuffle(cols)
+    rows = []
+    styles = {c: rng.choice(["quarters", "ints", "signed", "prob", "sparse"]) for c in numeric}
+    for i in range(n):
+        row = []
+        for c in cols:
+            if c == "label":
+                row.append(str(i % 2))
+            elif c in numeric:
+                s = styles[c]
+                if s == "quarters":
+                    v = repr(rng.randint(0, 60) * 0.25)
+                elif s == "ints":
+                    v = str(rng.randint(0, 200))
+                elif s == "signed":
+                    v = rng.choice([str(rng.randint(-30, 90)), "%.2f" % rng.uniform(-3, 50), "0"])
+                elif s == "prob":
+                    v = "0.%02d" % rng.randint(0, 99)
+                else:                                      # mostly zero: several transformers become degenerate
+                    v = rng.choice(["0", "0", "0", "0", "0", "0", str(rng.randint(1, 9))])
+                if level == "batch" and rng.random() < 0.05:
+                    v = ""                                 # (the direct entry takes the parsed rows; '' = 0)
+                row.append(v)
+            else:
+                row.append("%s%d" % (c[0], rng.randint(0, 4)))
+        rows.append(row)
+    preset = rng.choice(PIPE_PRESETS if level == "batch" or rng.random() < 0.8 else ["minimal", "default"])
+    if "fw" in preset and level == "task":
+        preset = "default,minimal"
+    focus = None
+    if rng.random() < 0.55:          # a focus set that retains every numeric feature (the unchanged code needs that)
+        f = numeric + [c for c in cats if rng.random() < 0.5]
+        rng.shuffle(f)
+        focus = ",".join(f)
+    return {"level": level, "columns": cols, "rows": rows, "numeric": numeric, "label": "label",
+            "transformers": preset, "focus": focus,
+            # (the task with --heuristic Constant never writes the checkpoint it later reads: not a case)
+            "heuristic": "Constant" if level == "batch" else "MI-numba-randomized"}
+
+
+def pipeline_family(run, pipe_cases, exprs_of, viol):
+    """Names only (values are covered by the direct family): the set of <feature><transformer> columns that reach
+    mixed_rank_graph / pairwise_ranks.tsv = the non-degenerate ones of the union preset, and the input columns are kept.
+    Expected side: union from Coq `select`; keep decision by Coq `keep_row` on the strings of the independent IEEE
+    evaluation of the translated formulas on the float parse of the cells."""
+    st = {"cases": len(pipe_cases), "batch": 0, "task": 0, "with_focus": 0, "preset_lists": 0, "expected_transformed": 0,
+          "expected_dropped": 0, "excluded_rounding_sensitive": 0, "impl_errors": 0}
+    if not pipe_cases:
+        return st
+    scratch = os.path.join("/root/scratch", "c12_pipe_%d" % os.getpid())
+    res = vlib.run_impl("impl_c12_pipe.py", {"scratch": scratch, "cases": pipe_cases})["results"]
+    presets = sorted({c["transformers"] for c in pipe_cases})
+    exprs = ["sel_names %s" % vlib.strlit(p) for p in presets]
+    info = {}
+    for i, c in enumerate(pipe_cases):
+        for col in c["numeric"]:
+            j = c["columns"].index(col)
+            xs = []
+            for r in c["rows"]:
+                tx = r[j].replace('"', "")
+                xs.append(float(tx) if tx else 0.0)
+            info[(i, col)] = xs
+    sel = dict(zip(presets, vlib.coq_eval("C12p", HEADER, exprs)))
+    exprs, keys = [], []
+    for i, c in enumerate(pipe_cases):
+        s = sel[c["transformers"]]
+        names = None if s is None else ["".join(chr(x) for x in nm) for nm in s[1]]
+        for col in c["numeric"]:
+            xs = info[(i, col)]
+            pats, sens = [], []
+            for k in names or []:
+                tre = exprs_of.get(k)
+                if tre is None:
+                    pats.append(None)
+                    sens.append(True)
+                    continue
+                fr = Fragile()
+                mvs = [ev(tre[1], xs, x, fr) for x in xs]
+                strs = [repr(v) for v in mvs]
+                tbl = sorted(set(strs))
+                ix = {s_: n_ for n_, s_ in enumerate(tbl)}
+                pats.append("expandN %s %s" % (enc_list(tbl), vlib.nlist([ix[s_] for s_ in strs])))
+                sens.append(fr.hit or near_dupes(mvs))
+            exprs.append("map keep_row [%s]" % "; ".join(p for p in pats if p is not None))
+            keys.append((i, col, names, pats, sens))
+    vals = vlib.coq_eval("C12p", HEADER, exprs, shard=16) if exprs else []
+    expected = {}
+    for (i, col, names, pats, sens), rowsv in zip(keys, vals):
+        it = iter(rowsv)
+        for k, p, sflag in zip(names, pats, sens):
+            row = next(it) if p is not None else None
+            expected.setdefault(i, {})[col + k] = None if (sflag or row is None) else bool(row[0])
+    for i, (c, r) in enumerate(zip(pipe_cases, res)):
+        st[c["level"]] += 1
+        st["with_focus"] += 1 if c["focus"] else 0
+        st["preset_lists"] += 1 if "," in c["transformers"] else 0
+        case = {k: c[k] for k in ("level", "columns", "rows", "numeric", "label", "transformers", "focus", "heuristic")}
+        nontrivial = bool(c["focus"]) or "," in c["transformers"]
+        run.count_case(["pipe", c["level"], c["transformers"], c["focus"], c["rows"]], nontrivial)
+        if not r.get("ok"):
+            st["impl_errors"] += 1
+            viol(PIPE_FAM, case, impl=r.get("error"), clause="the %s runs with --transformers %s%s" % (
+                "ranking task" if c["level"] == "task" else "batch ranking", c["transformers"],
+                " --feature_set_focus %s" % c["focus"] if c["focus"] else ""))
+            continue
+        exp = expected.get(i, {})
+        must = {n_ for n_, v in exp.items() if v is True}
+        never = {n_ for n_, v in exp.items() if v is False}
+        st["expected_transformed"] += len(must)
+        st["expected_dropped"] += len(never)
+        st["excluded_rounding_sensitive"] += sum(1 for v in exp.values() if v is None)
+        keep_inputs = [x for x in c["columns"] if not c["focus"] or x in set(c["focus"].split(",")) | {c["label"]}]
+        seen = r.get("columns") if c["level"] == "batch" else r.get("ranked")
+        where = "the frame handed to mixed_rank_graph" if c["level"] == "batch" else "pairwise_ranks.tsv"
+        if seen is None:
+            viol(PIPE_FAM, case, impl=r, clause="the ranking task writes pairwise_ranks.tsv")
+            continue
+        got_tr = {x for x in seen if x not in c["columns"]}
+        missing = sorted(must - got_tr)
+        extra = sorted(x for x in got_tr if x in never or x not in exp)
+        lost_inputs = [x for x in keep_inputs if x not in seen]
+        if missing or extra or lost_inputs:
+            viol(PIPE_FAM, case, impl={"transformed columns in " + where: sorted(got_tr),
+                                       "args.transformers seen by compute_batch_ranking": r.get("transformers_seen")},
+                 model={"non-degenerate transformers of the selected presets": sorted(must)},
+                 clause=("%s lacks %s" % (where, missing[:4]) if missing else
+                         "%s has unexpected %s" % (where, extra[:4]) if extra else
+                         "input columns %s are not kept" % lost_inputs)
+                        + " (--transformers %s, --feature_set_focus %s)" % (c["transformers"], c["focus"]))
+        elif c["level"] == "batch" and r.get("ranked") is not None and set(r["ranked"]) != set(seen):
+            viol(PIPE_FAM, case, impl=sorted(set(seen) ^ set(r["ranked"])),
+                 clause="every column of the enriched frame is ranked")
+    return st
+
+
 def tables_python(tr):
     """python-side encoding of the translated tables, same prefix code as TransformTables.expr_code"""
     cmpi = {"CLt": 0, "CLe": 1, "CGt": 2, "CGe": 3, "CEq": 4, "CNe": 5}
@@ -656,10 +804,17 @@ def _check(run, replay):
                     exprs_of.setdefault(r["name"], (r["formula"], r["expr"]))
 
     # ---- 2. cases, implementation ------------------------------------------------------------------------------
+    pipe_cases = []
     if replay is not None and replay.get("case"):
-        cases = [replay["case"]]
+        if "level" in replay["case"]:
+            cases, pipe_cases = [], [replay["case"]]
+        else:
+            cases = [replay["case"]]
     else:      # (a replay of a broken obligation without input re-runs the whole check)
-        cases = load_corpus("C12")
+        cases = [c for c in load_corpus("C12") if "level" not in c]
+        pipe_cases = [c for c in load_corpus("C12") if "level" in c]
+        for _ in range(26 if run.tier == "quick" else 160):
+            pipe_cases.append(gen_pipe_case(run.rng))
         n = 130 if run.tier == "quick" else 1500
         for _ in range(n):
             cases.append(gen_case(run.rng, big=(run.tier == "thorough")))
@@ -735,7 +890,8 @@ def _check(run, replay):
     real_budget = [60000 if run.tier == "quick" else 400000]
     float_effects = []
     fe_seen = set()
-    fam_ok = {"names (C12_check on the implementation's rendered values)": True, "union (transformer_collection)": True,
+    fam_ok = {"pipeline: transformed columns reach the ranking (compute_batch_ranking / ranking task)": True,
+              "names (C12_check on the implementation's rendered values)": True, "union (transformer_collection)": True,
               "parse (get_vals)": True, "values vs translated formula": True, "values vs reading of the name": True,
               "keep/drop vs independently computed values": True, "appended columns carry the rendered values": True,
               "names vs the composed Coq model evaluated on the raw cells": True}
@@ -998,6 +1154,8 @@ def _check(run, replay):
             viol("names (C12_check on the implementation's rendered values)", c, impl=r.get("constructed"),
                  model=sorted(new), clause="constructed_feature_names = appended columns")
         run.count_case([c["preset"], c["columns"]], nontrivial)
+
+    run.cov["pipeline_family"] = pipeline_family(run, pipe_cases, exprs_of, viol)
 
     for fam, ok in fam_ok.items():
         run.oblige("correspondence:" + fam, ok)
